@@ -257,10 +257,31 @@ fn characteristics(m: &vcp::Message, cut: usize, ty: ChunkType) -> ChunkCharacte
 
 /// history: list of (key, sample index). Checks the estimate for every key against the reference
 /// "mean of the last ten samples of that key".
+thread_local! {
+    /// how the statistics object under test is obtained: 0 = `new()`, 1 = `Default::default()`,
+    /// 2 = `std::mem::take` of a used one, 3 = clone of a fresh one. A value's behaviour must not
+    /// depend on which of its public constructors produced it.
+    static CTOR: std::cell::Cell<u8> = const { std::cell::Cell::new(0) };
+}
+
+fn fresh_stats() -> ChunkTimingStats {
+    match CTOR.with(|c| c.get()) {
+        1 => ChunkTimingStats::default(),
+        2 => {
+            let mut used = ChunkTimingStats::new();
+            let _ = std::mem::take(&mut used);
+            used
+        }
+        3 => ChunkTimingStats::new().clone(),
+        _ => ChunkTimingStats::new(),
+    }
+}
+
 pub fn check_history(ctx: &Ctx, hist: &[(u8, u8)]) -> &'static str {
-    let wit = || json!({"op": "history", "history": hist.iter().map(|h| [h.0, h.1]).collect::<Vec<_>>()});
+    let ctor = CTOR.with(|c| c.get());
+    let wit = || json!({"op": "history", "history": hist.iter().map(|h| [h.0, h.1]).collect::<Vec<_>>(), "constructor": ctor});
     let mut outcome = "ok";
-    let mut stats = ChunkTimingStats::new();
+    let mut stats = fresh_stats();
     static SETUP: std::sync::OnceLock<(Vec<(Vec<(bool, u8, u8)>, usize, ChunkType, u8, u8)>, Vec<vcp::Message>, Vec<ChunkCharacteristics>)> = std::sync::OnceLock::new();
     let (setups, msgs, chars) = SETUP.get_or_init(|| {
         let setups: Vec<_> = (0..3).map(key_setup).collect();
@@ -455,6 +476,26 @@ pub fn run(ctx: &'static Ctx) -> (&'static str, Value, Vec<&'static str>) {
         s3.eval();
         s3.outcome(o);
     }
+    // constructor dimension: every history of length <= 4 (and the long ones) on statistics objects
+    // obtained through Default, mem::take and Clone instead of new()
+    for ctor in 1..=3u8 {
+        CTOR.with(|c| c.set(ctor));
+        for len in 0..=4usize {
+            for w in words(9, len) {
+                let hist: Vec<(u8, u8)> = w.iter().map(|x| ((*x / 3) as u8, (*x % 3) as u8)).collect();
+                let o = check_history(ctx, &hist);
+                s3.eval();
+                s3.outcome(o);
+            }
+        }
+        for pat in 0..3usize {
+            let hist: Vec<(u8, u8)> = (0..50).map(|i| ((i % (pat + 1)) as u8, ((i * 7 + pat) % 3) as u8)).collect();
+            let _ = check_history(ctx, &hist);
+            s3.eval();
+        }
+        s3.count("histories_on_alternatively_constructed_statistics", 1);
+    }
+    CTOR.with(|c| c.set(0));
     // history: mapping / estimate calls with different cut lists back to back on one thread
     let lists: Vec<Vec<(bool, u8, u8)>> = vec![
         vec![(true, 1, 0), (false, 4, 2), (true, 2, 1)],
@@ -506,7 +547,9 @@ pub fn replay(ctx: &'static Ctx, case: &Value) {
         }
         Some("history") => {
             let h: Vec<(u8, u8)> = case["history"].as_array().map(|a| a.iter().map(|x| (x[0].as_u64().unwrap_or(0) as u8, x[1].as_u64().unwrap_or(0) as u8)).collect()).unwrap_or_default();
+            CTOR.with(|c| c.set(case["constructor"].as_u64().unwrap_or(0) as u8));
             println!("replay history -> {}", check_history(ctx, &h));
+            CTOR.with(|c| c.set(0));
         }
         Some("mapping") => {
             let halves: Vec<bool> = case["half_degree"].as_array().map(|a| a.iter().map(|x| x.as_bool().unwrap_or(false)).collect()).unwrap_or_default();
